@@ -42,6 +42,7 @@ def core (c : Cand) : Cand := { c with lastRecv := none, lastSent := none }
 @[simp] theorem core_rel (c : Cand) : (core c).rel = c.rel := rfl
 @[simp] theorem core_prio (c : Cand) : (core c).prio = c.prio := rfl
 @[simp] theorem core_form (c : Cand) : (core c).form = c.form := rfl
+@[simp] theorem core_tt (c : Cand) : (core c).tt = c.tt := rfl
 @[simp] theorem core_core (c : Cand) : core (core c) = core c := rfl
 @[simp] theorem core_equal (a b : Cand) : (core a).equal (core b) = a.equal b := rfl
 @[simp] theorem core_equal_l (a b : Cand) : (core a).equal b = a.equal b := rfl
